@@ -398,4 +398,184 @@ Section Thm.
       injection H as <-. cbn [s_vars]. intros o Io Co To.
       eapply vars_after_cfg; eauto. eapply vars_after_cli; eauto.
   Qed.
+  (** the variables-map entry of a current option holds what its member holds *)
+  Theorem vm_thm P cli fs dflt s :
+    checker P = true -> parse T wf P cli fs dflt = Run s ->
+    exists items, resolve_all T cli = Some items /\
+      forall o, In o T -> is_canon o = true -> typed o = true ->
+        option_map fst (s_vm s (o_name o)) = spec_value (prog_aliases P) items (loaded P items fs dflt) o.
+  Proof.
+    intros CK H. destruct (checker_facts P CK) as (al & SH & ND & NDal & ALok & CANok & _).
+    destruct (prog_shape_some _ _ SH) as [PC PF].
+    unfold prog_aliases. rewrite PF.
+    unfold parse in H. destruct (resolve_all T cli) as [items|] eqn:RA; [|discriminate].
+    exists items. split; [reflexivity|].
+    pose proof (resolve_all_cli T cli items RA) as CLI.
+    rewrite PC in H. cbn [exec_list exec st0 s_fin s_vm s_vars] in H.
+    destruct (store_items T wf true (fun _ => false) items (fun _ => None)) as [vmA|] eqn:SA; [|discriminate].
+    destruct (existsb _ (p_flags P)); [discriminate|].
+    rewrite (source_eq P items vmA fs dflt SA) in H.
+    assert (V1 : forall o, In o T -> is_canon o = true -> typed o = true ->
+                 option_map fst (add_defaults T true vmA (o_name o)) = spec_value al items [] o).
+    { intros o Io Co To. rewrite (vm1_canon al ND CANok items vmA SA o Io Co To).
+      unfold spec_value. cbn [occurs existsb].
+      destruct (occurs (o_name o) items); [reflexivity|].
+      unfold dflt_tokens. destruct (alias_of al (o_name o)); now destruct (o_defcli o). }
+    unfold loaded. destruct (source P items fs dflt) as [[| |ci] b]; cbn [fst].
+    - destruct b; [discriminate|]. injection H as <-. cbn [s_vm]. assumption.
+    - injection H as <-. cbn [s_vm]. assumption.
+    - destruct (forallb (known_file T) ci); [|discriminate].
+      rewrite PF in H. cbn [exec_list exec s_fin s_vm s_vars] in H.
+      destruct (store_items T wf false _ ci _) as [vmB|] eqn:SB; [|discriminate].
+      injection H as <-. cbn [s_vm]. intros o Io Co To.
+      eapply vm3_canon; eauto.
+  Qed.
+
+  (** * C20.2 errors stop the program *)
+  Theorem unknown_cli_fails P cli fs dflt c t :
+    In (c, t) cli -> resolve T c = None -> parse T wf P cli fs dflt = Fail.
+  Proof. intros HI R. unfold parse. now rewrite (resolve_all_unknown T cli c t HI R). Qed.
+
+  Theorem malformed_cli_fails P cli fs dflt items n toks o t :
+    checker P = true -> resolve_all T cli = Some items ->
+    In (n, toks) items -> find_opt n = Some o -> typed o = true -> In t toks -> wf (o_ty o) t = false ->
+    parse T wf P cli fs dflt = Fail.
+  Proof.
+    intros CK RA HI Fo To Ht Hw. destruct (checker_facts P CK) as (al & SH & _).
+    destruct (prog_shape_some _ _ SH) as [PC PF].
+    unfold parse. rewrite RA, PC. cbn [exec_list exec st0 s_fin s_vm s_vars].
+    rewrite (store_items_malformed T wf true (fun _ => false) items (fun _ => None) n toks o t); auto.
+    unfold typed in To. destruct (o_ty o); congruence.
+  Qed.
+
+  Theorem repeated_cli_fails P cli fs dflt i1 i2 i3 n t1 t2 o :
+    checker P = true -> resolve_all T cli = Some (i1 ++ (n, t1) :: i2 ++ (n, t2) :: i3) ->
+    find_opt n = Some o -> o_ty o <> TVecFloat ->
+    parse T wf P cli fs dflt = Fail.
+  Proof.
+    intros CK RA Fo Ty. destruct (checker_facts P CK) as (al & SH & _).
+    destruct (prog_shape_some _ _ SH) as [PC PF].
+    unfold parse. rewrite RA, PC. cbn [exec_list exec st0 s_fin s_vm s_vars].
+    now rewrite (store_items_repeated T wf true (fun _ => false) i1 i2 i3 (fun _ => None) n t1 t2 o).
+  Qed.
+
+  (** errors in the config file that parse() reads: unknown name; malformed token or repeated
+      scalar of an option that the command line does not override *)
+  Theorem bad_config_never_runs P cli fs dflt items ci b :
+    checker P = true -> resolve_all T cli = Some items -> source P items fs dflt = (FFile ci, b) ->
+    (exists it, In it ci /\ known_file T it = false)
+    \/ (exists n toks o t, In (n, toks) ci /\ occurs n items = false /\ find_opt n = Some o /\ typed o = true
+                          /\ In t toks /\ wf (o_ty o) t = false)
+    \/ (exists i1 i2 i3 n t1 t2 o, ci = i1 ++ (n, t1) :: i2 ++ (n, t2) :: i3 /\ occurs n items = false
+                                  /\ find_opt n = Some o /\ o_ty o <> TVecFloat) ->
+    forall s, parse T wf P cli fs dflt <> Run s.
+  Proof.
+    intros CK RA SRC BAD s. destruct (checker_facts P CK) as (al & SH & _).
+    destruct (prog_shape_some _ _ SH) as [PC PF].
+    unfold parse. rewrite RA, PC. cbn [exec_list exec st0 s_fin s_vm s_vars].
+    destruct (store_items T wf true (fun _ => false) items (fun _ => None)) as [vmA|] eqn:SA; [|discriminate].
+    destruct (existsb _ (p_flags P)); [discriminate|].
+    rewrite (source_eq P items vmA fs dflt SA), SRC.
+    destruct (forallb (known_file T) ci) eqn:KF.
+    - rewrite PF. cbn [exec_list exec s_fin s_vm s_vars].
+      destruct BAD as [(it & HI & K) | [(n & toks & o & t & HI & Oc & Fo & To & Ht & Hw) | (i1 & i2 & i3 & n & t1 & t2 & o & -> & Oc & Fo & Ty)]].
+      + rewrite forallb_forall in KF. rewrite (KF it HI) in K. discriminate.
+      + rewrite (store_items_malformed T wf false _ ci _ n toks o t); auto; try discriminate.
+        * cbn [orb]. now rewrite mem_occurs.
+        * unfold typed in To. destruct (o_ty o); congruence.
+      + rewrite (store_items_repeated T wf false _ i1 i2 i3 _ n t1 t2 o); auto; try discriminate.
+        cbn [orb]. now rewrite mem_occurs.
+    - discriminate.
+  Qed.
+
+  (** * C20.2 a config file that was asked for and does not exist stops the program *)
+  Theorem missing_config_thm P cli fs dflt items t :
+    checker P = true -> resolve_all T cli = Some items -> cfg_given P items = Some [t] -> fs t = FNoFile ->
+    parse T wf P cli fs dflt = Stop \/ parse T wf P cli fs dflt = Fail.
+  Proof.
+    intros CK RA CG FS. destruct (checker_facts P CK) as (al & SH & _).
+    destruct (prog_shape_some _ _ SH) as [PC PF].
+    unfold parse. rewrite RA, PC. cbn [exec_list exec st0 s_fin s_vm s_vars].
+    destruct (store_items T wf true (fun _ => false) items (fun _ => None)) as [vmA|] eqn:SA; [|auto].
+    destruct (existsb _ (p_flags P)); [auto|].
+    rewrite (source_eq P items vmA fs dflt SA). unfold source. rewrite CG, FS. auto.
+  Qed.
+  (** * C20.2 ignored options are inert; legacy names are honoured *)
+  Definition ignored_name (n : string) : bool :=
+    match find_opt n with Some o => is_ignored o | None => false end.
+  Definition drop_ignored (ci : list item) : list item := filter (fun it => negb (ignored_name (fst it))) ci.
+
+  Lemma occurs_filter keep n (ci : list item) :
+    (forall it, In it ci -> fst it = n -> keep it = true) -> occurs n (filter keep ci) = occurs n ci.
+  Proof.
+    unfold occurs. induction ci as [|it r IH]; intro H; [reflexivity|]. cbn [filter existsb].
+    destruct (keep it) eqn:K.
+    - cbn [existsb]. rewrite IH; [reflexivity|]. intros; apply H; cbn; auto.
+    - rewrite IH by (intros; apply H; cbn; auto).
+      destruct (String.eqb (fst it) n) eqn:E; [|reflexivity].
+      apply String.eqb_eq in E. rewrite (H it (or_introl eq_refl) E) in K. discriminate.
+  Qed.
+
+  Lemma collect_filter keep incli n (ci : list item) :
+    (forall it, In it ci -> fst it = n -> keep it = true) -> collect T incli n (filter keep ci) = collect T incli n ci.
+  Proof.
+    unfold collect. destruct (find_opt n) as [o|]; [|reflexivity].
+    induction ci as [|it r IH]; intro H; [reflexivity|]. cbn [filter flat_map].
+    destruct (keep it) eqn:K.
+    - cbn [flat_map]. rewrite IH; [reflexivity|]. intros; apply H; cbn; auto.
+    - rewrite IH by (intros; apply H; cbn; auto).
+      destruct (String.eqb (fst it) n) eqn:E; [|reflexivity].
+      apply String.eqb_eq in E. rewrite (H it (or_introl eq_refl) E) in K. discriminate.
+  Qed.
+
+  Theorem ignored_inert_thm P items ci o :
+    checker P = true -> In o T -> is_canon o = true ->
+    spec_value (prog_aliases P) items (drop_ignored ci) o = spec_value (prog_aliases P) items ci o.
+  Proof.
+    intros CK Io Co. destruct (checker_facts P CK) as (al & SH & ND & NDal & ALok & _).
+    destruct (prog_shape_some _ _ SH) as [PC PF]. unfold prog_aliases. rewrite PF.
+    assert (KC : forall it, In it ci -> fst it = o_name o -> negb (ignored_name (fst it)) = true).
+    { intros it _ E. rewrite E. unfold ignored_name. rewrite (find_opt_unique T o ND Io).
+      unfold is_canon in Co. unfold is_ignored. now destruct (o_kind o). }
+    assert (E1 : occurs (o_name o) (drop_ignored ci) = occurs (o_name o) ci) by (apply occurs_filter; exact KC).
+    assert (E2 : collect T false (o_name o) (drop_ignored ci) = collect T false (o_name o) ci)
+      by (apply collect_filter; exact KC).
+    unfold spec_value. cbv zeta. rewrite E1, E2.
+    destruct (alias_of al (o_name o)) as [a|] eqn:AO; [|reflexivity].
+    apply alias_of_in in AO. pose proof (ALok _ AO) as A. unfold alias_ok in A. cbn [fst snd] in A.
+    destruct (find_opt a) as [oa|] eqn:Fa; [|discriminate].
+    destruct (find_opt (o_name o)); [|discriminate].
+    repeat (apply andb_prop in A as [A ?]).
+    assert (KA : forall it, In it ci -> fst it = a -> negb (ignored_name (fst it)) = true).
+    { intros it _ E. rewrite E. unfold ignored_name. rewrite Fa. unfold is_ignored. now destruct (o_kind oa). }
+    assert (E3 : occurs a (drop_ignored ci) = occurs a ci) by (apply occurs_filter; exact KA).
+    assert (E4 : collect T false a (drop_ignored ci) = collect T false a ci) by (apply collect_filter; exact KA).
+    now rewrite E3, E4.
+  Qed.
+
+  (** tokens of a file are taken as they stand, whatever the name they are given under *)
+  Lemma collect_file_raw n o (ci : list item) :
+    find_opt n = Some o ->
+    collect T false n ci = flat_map (fun it => if String.eqb (fst it) n then snd it else []) ci.
+  Proof.
+    intro F. unfold collect. rewrite F. induction ci as [|it r IH]; [reflexivity|].
+    cbn [flat_map]. rewrite IH. f_equal. destruct (String.eqb (fst it) n); [|reflexivity].
+    unfold ntoks. cbn [andb]. destruct (o_ty o); try reflexivity; now destruct (snd it).
+  Qed.
 End Thm.
+
+(** * The pinned tree (before the fix: commits): parse program and writer rules as they were.
+    Kept as constants so that the refutations that motivated the fixes stay checked. *)
+Local Open Scope string_scope.
+Definition pinned_prog : prog := mkProg
+  [StoreCli; Notify] ["help"; "copyright"; "version"; "buildinfo"] "config"
+  [StoreCfg; Notify; CopyIfPresent "SyncFreq" "SynchrotronFrequency"; Notify].
+Definition pinned_aliases : list (string * string) :=
+  [("RFVoltage", "AcceleratingVoltage"); ("SyncFreq", "SynchrotronFrequency"); ("steps", "StepsPerTs")].
+Definition pinned_wrules : wrules := mkW
+  ["HaissinskiIterations"; "InitialDistParam"; "RotationType"; "SyncFreq"; "steps"; "RFVoltage"; "run_anyway"; "SaveSourceMap"]
+  "alpha0" "f_s" true [TFloat; TDouble; TI32; TU32; TI64; TBool] false ["config"].
+
+(** the default token of an option of a table (to name "zero" without fixing token numbers) *)
+Definition default_of (T : list opt) (n : string) : tok :=
+  match Options.find_opt T n with Some o => match o_defcli o with Some d => d | None => 0%Z end | None => 0%Z end.
